@@ -383,6 +383,49 @@ def _exc(e):
     return f"{type(e).__name__}: {str(e)[:160]}"
 
 
+def _containers(rec, inst, res, call, grid, coords, two_d):
+    """alpha of the returned container(s): class names, slim / native entries as tags, mask, payload independence."""
+    api, rk, tau = inst["api"], inst["rk"], inst["tau"]
+    n = len(inst["u"])
+    els = list(res) if isinstance(res, list) else [res]
+    rec["kinds"] = [type(el).__name__ for el in els]
+    rec["out"] = [_tags_of(el, e, rk, "slim") for e, el in enumerate(els)]
+    rng = np.random.default_rng(n * 7 + len(api))
+    payload = [[rng.standard_normal(BIG) * s for s in (1.0, 1e-300)], [rng.standard_normal(BIG) * s for s in (1e290, 3.0)]]
+    ok = True
+    els2 = []
+    try:
+        _, _, res2 = call(payload)
+        els2 = list(res2) if isinstance(res2, list) else [res2]
+        ok = len(els2) == len(els)
+        for e, el in enumerate(els2[: len(els)]):
+            ok = ok and _payload_ok(el, e, rk, "slim", rec["out"][e], payload)
+    except Exception:  # noqa
+        ok = False
+    if two_d:
+        rec["nat"] = [_tags_of(el, e, rk, "native") for e, el in enumerate(els)]
+        for e, el in enumerate(els2[: len(els)] if ok else []):
+            ok = ok and _payload_ok(el, e, rk, "native", rec["nat"][e], payload)
+        m0 = els[0].mask
+        rec["rh"], rec["rw"] = int(m0.shape_native[0]), int(m0.shape_native[1])
+        rec["ru"] = [int(x) for x in np.flatnonzero(~np.asarray(m0, dtype=bool).ravel())]
+        same = all(np.array_equal(np.asarray(el.mask), np.asarray(m0)) and tuple(el.mask.pixel_scales) == tuple(m0.pixel_scales)
+                   and tuple(el.mask.origin) == tuple(m0.origin) for el in els[1:])
+        try:
+            rec["geo_in"] = _geo(grid.mask, tau)
+            rec["geo_out"] = _geo(m0, tau)
+            rec["geo_ok"] = bool(same)
+        except exact.OffLattice:
+            rec["geo_ok"] = False
+    if api == "to_vector_yx":
+        vg = []
+        for el in els:
+            t = Probe(coords, rk, False).tags(np.array(el.grid, dtype=float).reshape(-1, 2))
+            vg = t if (not vg or vg == t) else [exact.OFF] * len(t)
+        rec["vgrid"] = vg
+    rec["payload_ok"] = bool(ok)
+
+
 def record_for(inst):
     """Run the instance through the real decorators and abstract what happened."""
     inst = dict(inst)
@@ -432,44 +475,17 @@ def record_for(inst):
 
     # ---- containers
     if api in WRAPS + STACKS + ("project",):
-        islist = isinstance(res, list)
-        els = list(res) if islist else [res]
-        rec["islist"] = islist
-        rec["kinds"] = [type(el).__name__ for el in els]
-        rec["out"] = [_tags_of(el, e, rk, "slim") for e, el in enumerate(els)]
-        rng = np.random.default_rng(n * 7 + len(api))
-        payload = [[rng.standard_normal(BIG) * s for s in (1.0, 1e-300)], [rng.standard_normal(BIG) * s for s in (1e290, 3.0)]]
-        ok = True
-        try:
-            _, _, res2 = call(payload)
-            els2 = list(res2) if isinstance(res2, list) else [res2]
-            ok = len(els2) == len(els)
-            for e, el in enumerate(els2[: len(els)]):
-                ok = ok and _payload_ok(el, e, rk, "slim", rec["out"][e], payload)
-        except Exception:  # noqa
-            ok = False
-        if gk == "g2d" and api != "project":
-            rec["nat"] = [_tags_of(el, e, rk, "native") for e, el in enumerate(els)]
-            for e, el in enumerate(els2[: len(els)] if ok else []):
-                ok = ok and _payload_ok(el, e, rk, "native", rec["nat"][e], payload)
-            m0 = els[0].mask
-            rec["rh"], rec["rw"] = int(m0.shape_native[0]), int(m0.shape_native[1])
-            rec["ru"] = [int(x) for x in np.flatnonzero(~np.asarray(m0, dtype=bool).ravel())]
-            same = all(np.array_equal(np.asarray(el.mask), np.asarray(m0)) and el.mask.pixel_scales == m0.pixel_scales
-                       and el.mask.origin == m0.origin for el in els[1:])
-            try:
-                rec["geo_in"] = _geo(grid.mask, tau)
-                rec["geo_out"] = _geo(m0, tau)
-                rec["geo_ok"] = bool(same)
-            except exact.OffLattice:
-                rec["geo_in"], rec["geo_out"], rec["geo_ok"] = [0, 0, 0, 0], [0, 0, 0, 0], False
+        two_d = gk == "g2d" and api != "project"
+        rec.update({"islist": isinstance(res, list), "kinds": [], "out": [], "payload_ok": False})
+        if two_d:
+            rec.update({"nat": [], "rh": 0, "rw": 0, "ru": [], "geo_in": [0, 0, 0, 0], "geo_out": [0, 0, 0, 0], "geo_ok": False})
         if api == "to_vector_yx":
-            vg = []
-            for el in els:
-                t = Probe(coords, rk, False).tags(np.array(el.grid, dtype=float).reshape(-1, 2))
-                vg = t if (not vg or vg == t) else [exact.OFF] * len(t)
-            rec["vgrid"] = vg
-        rec["payload_ok"] = bool(ok)
+            rec["vgrid"] = []
+        try:
+            _containers(rec, inst, res, call, grid, coords, two_d)
+        except Exception as e:  # noqa -- a result that cannot even be read as a container is a rejection, not a crash
+            rec["bad_container"] = _exc(e)
+            rec["payload_ok"] = False
 
     # ---- points the code computed
     recv = probe.recv
@@ -650,6 +666,9 @@ def _describe(rec):
         s += f" kinds={rec.get('kinds')} rid={rec.get('rid')} out={rec.get('out')}"
     if rec.get("raised"):
         s += f" RAISED {rec.get('exc')}"
+    for k in ("bad", "bad_container"):
+        if rec.get(k):
+            s += f" [{k}: {rec[k]}]"
     return s
 
 
@@ -658,7 +677,7 @@ def validate(ctx, records, tag, chunk=1500):
 
     for n, r in enumerate(records):
         r["id"] = n
-    slim = [{k: v for k, v in r.items() if k not in ("inst", "exc", "bad")} for r in records]
+    slim = [{k: v for k, v in r.items() if k not in ("inst", "exc", "bad", "bad_container")} for r in records]
     chunks = [slim[k: k + chunk] for k in range(0, len(slim), chunk)]
     rejects = []
 
